@@ -79,7 +79,10 @@ Fixpoint search_desc (items : list region) (key : bytes) (is_end : bool) : optio
   end.
 Definition le_items (l : list region) (key : bytes) := filter (fun r => lex_leb (r_start r) key) l.
 Definition search (l : list region) (key : bytes) (is_end : bool) : option region :=
-  search_desc (rev (le_items l key)) key is_end.
+  if is_end && is_nil key then
+    (* the end of the key space: only the entry with the greatest start key can hold it (fix 0dbaf7e) *)
+    match rev l with r :: _ => if r_contains_end r key then Some r else None | [] => None end
+  else search_desc (rev (le_items l key)) key is_end.
 
 Definition flagged (r : region) := r_reload r || r_ready r.
 
@@ -327,6 +330,25 @@ Variable batch_limit : nat. (* defaultRegionsPerBatch *)
 
 Definition call (t : nat) (q : pd_req) : option pd_ans := if Nat.ltb t budget then Some (pd t q) else None.
 
+(* scanRegions / batchScanRegions: ask again while the answer is empty, has a gap or has no region with a leader *)
+Fixpoint scan_loop (fuel t : nat) (q : pd_req) (rs : list range) (limit : nat) (need_leader : bool) : res (list region) * nat :=
+  match fuel with
+  | O => (Err 3, t)
+  | S f =>
+    match call t q with
+    | None => (Err 1, t)
+    | Some (PdOne _) => (Err 4, S t)
+    | Some (PdMany infos) =>
+        if is_nil infos then scan_loop f (S t) q rs limit need_leader
+        else if regions_have_gap rs infos limit then scan_loop f (S t) q rs limit need_leader
+        else match handle_infos infos need_leader with
+             | Err e => (Err e, S t)
+             | Ok [] => scan_loop f (S t) q rs limit need_leader
+             | Ok regs => (Ok regs, S t)
+             end
+    end
+  end.
+
 (* loadRegion *)
 Fixpoint load_region (fuel t : nat) (key : bytes) (is_end prev : bool) : res region * nat :=
   match fuel with
@@ -344,6 +366,26 @@ Fixpoint load_region (fuel t : nat) (key : bytes) (is_end prev : bool) : res reg
     end
   end.
 
+(* loadLastRegion (fix 0dbaf7e): the region whose end key is unbounded, scanning from the greatest cached start key
+   with defaultRegionsPerBatch = 128 *)
+Definition max_start (l : list region) : bytes := match rev l with r :: _ => r_start r | [] => [] end.
+Fixpoint load_last (fuel t : nat) (start : bytes) : res region * nat :=
+  match fuel with
+  | O => (Err 3, t)
+  | S f =>
+    match scan_loop fuel t (ReqScan start [] 128) [(start, [])] 128 true with
+    | (Err e, t1) => (Err e, t1)
+    | (Ok regs, t1) =>
+        match rev regs with
+        | [] => (Err 5, t1)
+        | lastr :: _ => if is_nil (r_end lastr) then (Ok lastr, t1) else load_last f t1 (r_end lastr)
+        end
+    end
+  end.
+(* loadRegion as findRegionByKey calls it *)
+Definition load_for (c : cache) (fuel t : nat) (key : bytes) (is_end : bool) : res region * nat :=
+  if is_end && is_nil key then load_last fuel t (max_start (c_sorted c)) else load_region fuel t key is_end false.
+
 (* loadRegionByID *)
 Definition load_by_id (t : nat) (id : N) : res region * nat :=
   match call t (ReqById id) with
@@ -356,12 +398,12 @@ Definition load_by_id (t : nat) (id : N) : res region * nat :=
 (* findRegionByKey *)
 Definition find_region_by_key (fuel t : nat) (c : cache) (key : bytes) (is_end : bool) : res region * cache * nat :=
   let miss := fun _ : unit =>
-    match load_region fuel t key is_end false with
+    match load_for c fuel t key is_end with
     | (Err e, t1) => (Err e, c, t1)
     | (Ok lr, t1) =>
         let '(ok, c1) := insert_new c lr in
         if ok then (Ok (as_stored c lr), c1, t1)
-        else match load_region fuel t1 key is_end false with
+        else match load_for c1 fuel t1 key is_end with
              | (Err e, t2) => (Err e, c1, t2)
              | (Ok lr2, t2) => (Ok (as_stored c1 lr2), snd (insert_new c1 lr2), t2)
              end
@@ -372,7 +414,7 @@ Definition find_region_by_key (fuel t : nat) (c : cache) (key : bytes) (is_end :
       if r_expired r then miss tt
       else if flagged r then
         let c1 := upd_entry c r clear_access_flags in
-        match load_region fuel t key is_end false with
+        match load_for c fuel t key is_end with
         | (Err _, t1) => (Ok r, upd_entry c1 r set_reload, t1)
         | (Ok lr, t1) => (Ok (as_stored c1 lr), snd (insert_new c1 lr), t1)
         end
@@ -410,25 +452,6 @@ Definition locate_by_id (t : nat) (c : cache) (id : N) : res region * cache * na
         end
       else (Ok r, c, t)
   | None => miss tt
-  end.
-
-(* scanRegions / batchScanRegions: ask again while the answer is empty, has a gap or has no region with a leader *)
-Fixpoint scan_loop (fuel t : nat) (q : pd_req) (rs : list range) (limit : nat) (need_leader : bool) : res (list region) * nat :=
-  match fuel with
-  | O => (Err 3, t)
-  | S f =>
-    match call t q with
-    | None => (Err 1, t)
-    | Some (PdOne _) => (Err 4, S t)
-    | Some (PdMany infos) =>
-        if is_nil infos then scan_loop f (S t) q rs limit need_leader
-        else if regions_have_gap rs infos limit then scan_loop f (S t) q rs limit need_leader
-        else match handle_infos infos need_leader with
-             | Err e => (Err e, S t)
-             | Ok [] => scan_loop f (S t) q rs limit need_leader
-             | Ok regs => (Ok regs, S t)
-             end
-    end
   end.
 
 (* BatchLoadRegionsWithKeyRange (ScanRegions; only regions with a leader) *)
